@@ -12,11 +12,11 @@ CONSTANTS MaxLen,        \* bound on the number of symbols
 VARIABLE cur             \* the case built so far: [t, s, lit]; t = "str": s is the symbol sequence
 
 Core == {"a", "n", "1", "_", ".", "-", " ", "U000A", "\"", "\\", ":", "[", "]", ",", "<", ">",
-         "$", "#", "U2192", "U2227", "+", "@", "%", "U0301", "true", "null", "vs", "//", "::", "->"}
+         "$", "#", "U2192", "U2227", "+", "@", "%", "U0301", "U2028", "true", "null", "vs", "//", "::", "->"}
 Sigma == IF SigmaName = "full" THEN Symbols ELSE Core
 
 (* the value positions and the keys of the property statement *)
-Positions == {"assign", "meta", "list1", "list3", "imap"}
+Positions == {"assign", "meta", "list1", "list3", "imap", "nest", "mapnest"}    \* nest: [[v, x], y]   mapnest: [K::[v]]
 KeyClasses == {"K", "PATTERN", "REGEX"}
 Routes == {"api", "tool"}
 
